@@ -180,6 +180,16 @@ def wiring_unit(kind):
                         z3.BoolVal(a[0] is out.f["kernel_state"] and a[0] is ks),
                         a[1] == out.f["info"].f["acceptance_prob"], a[2] == ep.f["time_in_epoch"], a[3] == k.ctor_args["da_target_accept"],
                         a[4] == k.ctor_args["da_gamma"], a[5] == k.ctor_args["da_kappa"], a[6] == k.ctor_args["da_t0"]))  # the values given to the REAL constructor
+                # the kernel's constants are its PUBLIC da_* attributes at the time of the transition: re-configured after construction
+                # (k.da_target_accept = ...; a subclass assigning them after super().__init__()), the next step uses the new values
+                newc = {n: c.fresh("re_" + n, ip.ctx.float_sort if n != "da_t0" else Int) for n in ("da_target_accept", "da_gamma", "da_kappa", "da_t0")}
+                for n, v in newc.items():
+                    ip.setattr(k, n, v)
+                del calls[:]
+                out2 = ip.call(method(ip, k, "_adaptive_transition"), [key, ks, ms, ep], {})
+                ok2 = len(calls) == 1 and calls[0][0] == "da_step"
+                c.oblige(f"da_step_uses_the_kernels_current_constants{suffix}", ok2 and And(
+                    calls[0][1][3] == newc["da_target_accept"], calls[0][1][4] == newc["da_gamma"], calls[0][1][5] == newc["da_kappa"], calls[0][1][6] == newc["da_t0"]))
             # mixin dispatch
             del calls[:]
             c.ghost["std_calls"] = []
@@ -344,3 +354,8 @@ from contracts.c07 import u_sample_next_epoch  # noqa: E402
 
 unit("C11.every_sampled_epoch_is_bracketed_by_start_and_end", "C11", [f"{_E}.sample_next_epoch"],
      summaries=["_start_epoch / _kernel_start_epoch / _sample_for_duration / _end_epoch (C07 units)"])(u_sample_next_epoch)
+
+# "adaptive transitions exactly in adaptation epochs" / "tuning state never changes in burn-in and posterior epochs": the dispatch of the mixins
+from contracts.c07 import mixins_unit  # noqa: E402
+
+mixins_unit("C11.adaptive_transition_exactly_in_adaptation_epochs", "C11")
